@@ -213,6 +213,34 @@ def other_cases():
     ]
 
 
+def sf_regexp_substr(subject, pattern, position=1, occurrence=1, params="c", group=None):
+    """REGEXP_SUBSTR as its reference page defines it, over Python's re (patterns are chosen where re and RE2 agree)."""
+    flags = 0
+    for ch in params:
+        flags = re.I if ch == "i" else 0 if ch == "c" else flags
+    ms = list(re.finditer(pattern, subject[position - 1:], flags))
+    if len(ms) < occurrence:
+        return None
+    return ms[occurrence - 1].group(group if group is not None else (1 if "e" in params else 0))
+
+
+def regexp_cases():
+    out = []
+    for subj in ["hello world", "Hello WORLD hello", "abc", "a1b22c333", ""]:
+        for pat in ["o", "l+", "(l+)(o)", "x(y)", "[a-z]+", "([a-z])([0-9]+)", "(H)ello"]:
+            ng = re.compile(pat).groups
+            forms = [(), (1,), (3,), (1, 1), (1, 2), (2, 3), (1, 1, "c"), (1, 1, "i"), (1, 2, "i")]
+            if ng:
+                forms += [(1, 1, "e"), (1, 2, "e"), (1, 1, "ie"), (1, 1, "e", 1), (1, 2, "e", 1), (2, 1, "e", ng), (1, 1, "c", ng), (1, 1, "e", 0)]
+            for f in forms:
+                args = "".join(", " + (repr(x) if isinstance(x, str) else str(x)) for x in f)
+                want = sf_regexp_substr(subj, pat, *f)
+                # 'e' without group_num: the parser fills in group 0, the whole match comes back (recorded finding) - only where that differs
+                cls = "C10-regexp-substr-e-default" if len(f) == 3 and "e" in f[2] and want != sf_regexp_substr(subj, pat, *f, 0) else None
+                out.append((f"regexp_substr('{subj}', '{pat}'{args})", want, cls))
+    return out
+
+
 def main():
     ck = Check("C10", "Expr", "run_c10")
     ck.prepare()
@@ -398,7 +426,7 @@ def main():
         if m[1] != w:
             raise core.MachineryError(f"Coq sem_sf {m[1]} and the Python oracle {w} disagree on {c_[1]}")
     # ---- (3) the rewritten functions outside the model: independent oracle table, nested forms included
-    for expr, want_v in other_cases():
+    for expr, want_v, cls in [(e_, w_, None) for e_, w_ in other_cases()] + regexp_cases():
         ck.cov["evaluations"] += 1
         try:
             got = cur.execute(f"select {expr} from t where id = 0").fetchall()[0][0]
@@ -408,7 +436,10 @@ def main():
         if isinstance(got, bytearray):
             got = bytes(got)
         if got != want_v or type(got) is not type(want_v):
-            report(f"fn:{expr}", f"`select {expr}` gives {got!r}, Snowflake documents {want_v!r}", {"expression": expr})
+            if cls:
+                known_or_report(cls, f"`select {expr}` gives {got!r}, Snowflake documents {want_v!r}", {"expression": expr})
+            else:
+                report(f"fn:{expr}", f"`select {expr}` gives {got!r}, Snowflake documents {want_v!r}", {"expression": expr})
     # structural rewrites
     cur.execute("create table j1 (customer_id int, name varchar)")
     cur.execute("create table j2 (id int, label varchar)")
@@ -466,7 +497,7 @@ def main():
     return ck.finish(rule="typed random expressions of the modelled fragment (depth <= 3: arithmetic, comparisons, 3VL, CASE, COALESCE, ::date, EQUAL_NULL, [TRY_]TO_DECIMAL/NUMBER/NUMERIC over text / "
                           "column / integer / decimal arguments, TO_DATE, DATEADD and DATEDIFF over six units) evaluated per row (values, NULLs, month ends, leap day, pre-1970) in the select list, "
                           "WHERE, inside an UPDATE, a view and a CTE: implementation vs sem_duck(rewrite e) and vs sem_sf e (value and type); sem_sf vs an independent Python implementation; the "
-                          "calendar vs datetime; oracle table for the regex/hash/trim/timestamp/cast rewrites incl. nested calls; structural rewrites (alias in JOIN, VALUES, IDENTIFIER, "
+                          "calendar vs datetime; oracle table for the regex/hash/trim/timestamp/cast rewrites incl. nested calls; REGEXP_SUBSTR over subjects x patterns x position/occurrence/parameters/group forms (match and no match) vs Python re; structural rewrites (alias in JOIN, VALUES, IDENTIFIER, "
                           "ARRAY_AGG WITHIN GROUP, SAMPLE, RANDOM); unsupported forms rejected; non-trivial = expressions with >= 4 nested calls")
 
 
